@@ -217,8 +217,10 @@ def run(prop, tier, seed):
                 st_self = selftest(prop, r['ndjson'], workdir)
             os.remove(r['ndjson'])
         if prop in ('C01', 'C03', 'C05', 'C10', 'C12', 'C13', 'C16', 'C18'):
-            # C13 is also judged on the TCP-MD5 fault scenarios of C12 (they contain operator stops and starts)
-            nd, nscen = S.run_scenarios({'C18': 'C16', 'C13': 'C12'}.get(prop, prop), tier, seed, workdir)
+            # C13 is also judged on the TCP-MD5 fault scenarios of C12 (they contain operator stops and starts), without the
+            # runs in which the application's on_connection_lost callback raises (assumption T8: the agent then still
+            # believes in a connection that is gone, and a Cease written on it cannot reach anybody)
+            nd, nscen = S.run_scenarios({'C18': 'C16', 'C13': 'C12S'}.get(prop, prop), tier, seed, workdir)
             if prop == 'C18':           # the counters are also judged on every hostile-input run of the C10 driver
                 # ... and on the fault scenarios of C12 (socket option and handler callback failures)
                 for j, other in enumerate(('C10', 'C12S')):
